@@ -114,7 +114,7 @@ def problems():
         failed_fut.exception()
         coro_obj.close()
         # every keyword name is the caller's to choose: none may collide with a wrapper's own parameter
-        KEYWORDS = ["instance", "function", "owner", "args", "kwargs", "executor", "loop", "context", "func", "method",
+        KEYWORDS = ["cls", "instance", "function", "owner", "args", "kwargs", "executor", "loop", "context", "func", "method",
                     "obj", "wrapped", "result", "value", "key", "name", "label", "limit", "timeout", "other"]
 
         def anykw(*a, **kw):
